@@ -176,6 +176,9 @@ type LFSServer struct {
 	// HrefOrigin picks the origin of an action href (default StorageOrigin
 	// for transfers, APIOrigin for verify).
 	HrefOrigin func(rel, oid string) string
+	// Storage401: storage 4xx faults may also answer 401 (an action's own
+	// Authorization refused) (C18).
+	Storage401 bool
 	// OfferExtraHeaders: actions carry additional headers (C18).
 	OfferExtraHeaders bool
 	// Authenticated sets "authenticated": true on batch objects.
@@ -671,8 +674,14 @@ func (s *LFSServer) serveGet(rec *ReqRec, oid string) *Resp {
 	}
 	if s.hit(key, s.F.Get4xx, "get.4xx") {
 		codes := []int{403, 404, 410, 400}
+		if s.Storage401 {
+			codes = append(codes, 401, 401)
+		}
 		c := codes[s.C.Choose(key, len(codes), "get-4xx-code")]
 		r := JSONResp(c, errBody("storage says no"))
+		if c == 401 {
+			r.Header.Set("Www-Authenticate", `Basic realm="storage"`)
+		}
 		r.Note = fmt.Sprintf("get.%d", c)
 		return r
 	}
@@ -809,8 +818,14 @@ func (s *LFSServer) servePut(rec *ReqRec, oid string) *Resp {
 	}
 	if s.hit(key, s.F.Put4xx, "put.4xx") {
 		codes := []int{403, 404, 400, 409}
+		if s.Storage401 {
+			codes = append(codes, 401, 401)
+		}
 		c := codes[s.C.Choose(key, len(codes), "put-4xx-code")]
 		r := JSONResp(c, errBody("storage says no"))
+		if c == 401 {
+			r.Header.Set("Www-Authenticate", `Basic realm="storage"`)
+		}
 		r.Note = fmt.Sprintf("put.%d", c)
 		return r
 	}
